@@ -158,7 +158,7 @@ StepStorePut(e) ==
                   {Alarm("BadLink", e, "previous signature is not the stored signature of round-1")})
          A5 == If(\E m \in NodesT : e.round \in DOMAIN store[m] /\ ok /\ e.round > 0 /\ store[m][e.round][1] # e.sigd,
                   {Alarm("Disagreement", e, "two nodes hold different beacons for one round")})
-         A6 == If(fresh /\ e.agg /\ ~e.sync /\ e.round > 0 /\ cnt < thrDue,
+         A6 == If(fresh /\ ~e.sync /\ e.round > 0 /\ cnt < thrDue,     \* whatever does not come from the sync stream is aggregated here
                   {Alarm("BelowThreshold", e, "aggregated with fewer valid distinct partials than the threshold")})
          A7 == If(fresh /\ e.round > 0 /\ \A m \in NodesT : upN[m] => RoundAt(clk[m]) + 1 < e.round,
                   {Alarm("BeaconBeforeItsTime", e, "round stored while every clock is more than one round behind")})
